@@ -105,7 +105,7 @@ def run_shards(check_id, shards, jobs, shard_timeout, mem_gb=3.0):
                 of = os.path.join(tmp, 'out%d.json' % nxt)
                 ef = os.path.join(tmp, 'err%d.txt' % nxt)
                 with open(sf, 'w') as fh:
-                    json.dump(shards[nxt], fh)
+                    json.dump(dict(shards[nxt], _soft=0.45 * shard_timeout), fh)
                 p = subprocess.Popen([PY, '-m', 'vlib.worker', check_id, sf, of], cwd=VERIF, env=envv,
                                      stdout=open(ef, 'w'), stderr=subprocess.STDOUT, preexec_fn=_limits(mem_gb))
                 running[nxt] = (p, time.monotonic(), of, ef)
